@@ -108,22 +108,9 @@ Definition clause_mask (c : case) (r : req) : N :=
 
 Definition oracle_ok (c : case) : bool := forallb (fun r => (clause_mask c r =? 0)%N) (reqs c).
 
-(* known classes: 1 = only prefix-completeness fails and the account candidates were narrowed
-   through the by-prefix index; 4 = only the edit-covers-the-fragment clause fails; 3 = both, nothing
-   else.  Class 2 (edit start behind the cursor) was repaired in /repo and is no longer recorded: a
-   case classified 2 is reported as a violation. *)
-Definition narrowed (c : case) (r : req) : bool :=
-  negb (beq (extract_account_prefix (content c) (q_ln r) (q_ch r)) []) &&
-  isSome (alookup (extract_account_prefix (content c) (q_ln r) (q_ch r)) (an_byprefix (an c))).
-
-Definition known (c : case) : N :=
-  let ms := map (fun r => (clause_mask c r, narrowed c r)) (reqs c) in
-  let only (allowed : N -> bool -> bool) := forallb (fun mn => (fst mn =? 0)%N || allowed (fst mn) (snd mn)) ms in
-  if only (fun _ _ => false) then 0%N
-  else if only (fun m n => (m =? 2)%N && n) then 1%N
-  else if only (fun m _ => (m =? 32)%N) then 2%N
-  else if only (fun m _ => (m =? 64)%N) then 4%N
-  else if only (fun m n => (m =? 32)%N || (m =? 64)%N || (((m =? 2) || (m =? 34) || (m =? 66))%N && n)) then 3%N
-  else 0%N.
+(* no recorded finding is left for C16.  Repaired in /repo: the edit range (54bc582), the argument
+   context inside a directive keyword (5efbcb0), the by-prefix narrowing cut at a blank and
+   case-sensitive (9b23eda). *)
+Definition known (c : case) : N := 0%N.
 
 Definition judge_all := judge_with tie_ok oracle_ok known.
